@@ -404,7 +404,7 @@ const knownFromjson = "c07-fromjson-decode-value-index"
 const preludeArg = `def _c07_fq_fromjson: fromjson; def fromjson: (if _exttype == "decode_value" and type == "string" then tovalue end) | _c07_fq_fromjson; `
 const preludeRes = `def _c07_fq_fromjson: fromjson; def fromjson: (if _exttype == "decode_value" and type == "string" then tovalue end) | _c07_fq_fromjson | tovalue; `
 
-var knownKeys = []string{knownFromjson, knownFromjsonArg}
+var knownKeys = []string{knownFromjson, knownFromjsonArg, knownStrIndex, knownArrSlice}
 
 func classify(prog string, agrees func(prelude string) bool) string {
 	if !strings.Contains(prog, "fromjson") {
